@@ -159,7 +159,7 @@ class Budget(Exception):
     pass
 
 
-def run_table(table, dynamics, graph, oracle, rec=None, budget=400):
+def run_table(table, dynamics, graph, oracle, rec=None, budget=400, prerun=False):
     """Run the table under 'stochastic' or 'synchronous' dynamics; returns the Recorder and results."""
     import epydemic
     import epydemic.stochasticdynamics as sd
@@ -192,6 +192,20 @@ def run_table(table, dynamics, graph, oracle, rec=None, budget=400):
                                  'chosen': [[l.name(), e, name] for (l, e, ef, name) in evs]})
             return evs
         dyn.allEventsInTimestep = all_events
+    if prerun:
+        # an earlier run on the SAME experiment object with other random choices: by C10 it must not influence
+        # the observed run (queue, ids, clock, loci, event tables all start afresh)
+        from vlib.oracle import Oracle
+        install(Oracle(seed=12345))
+        try:
+            dyn.set({}).run(fatal=True)
+        except Exception:
+            pass
+        del rec.obs[:]
+        del rec.ids[:]
+        del rec.draws[:]
+        del rec.logs[:]
+        del rec.tranches[:]
     install(oracle)
     install_draw_recorder(rec)
     saved_math = sd.math
